@@ -625,6 +625,9 @@ package table
 // confederation segments are never copied into it.
 //@ func UpdatePathAttrs2ByteAs
 //@   claims inv-init inv-keep step at-call at-return
+// an AS4_PATH that is sent has at least one segment (RFC 6793 6: shorter than 6 octets is malformed) - a member
+// above 65535 inside a confederation segment alone does not make one, confederation segments are not copied
+//@   at-call bgp.NewPathAttributeAs4Path(as4Params) requires len(as4Params) > 0
 //@   loop 1 invariant len(as2Params) == __iter + 1 && __iter + 1 <= len(asAttr.Value)
 //@   loop 1 step (segType == bgp.BGP_ASPATH_ATTR_TYPE_CONFED_SEQ || segType == bgp.BGP_ASPATH_ATTR_TYPE_CONFED_SET) ==> len(as4Params) == header(len(as4Params))
 //@   loop 1 step header(mkAs4) ==> mkAs4
